@@ -25,11 +25,17 @@ SCRIPTS_QUICK = [
     "W32:%d:7:-1|S:%d:7|N:%d:4" % (A, A, A),
     "W64:%d:0:5|N:%d:0;N:%d:1" % (C, C, C),
     "W32:%d:0:5;W32:%d:0:5|N:%d:1;N:%d:1" % (A, B, A, B),
+    # waiters WITHOUT timeout asleep on two addresses that share a bucket, drained in either order by one notifier: the one
+    # drained second must still be found (a waiter that can time out would hide a lost entry behind its time-out)
+    "W32:%d:0:-1|W32:%d:0:-1|N:%d:1;N:%d:1" % (A, B, A, B),
+    "W32:%d:0:-1|W32:%d:0:-1|N:%d:1;N:%d:1" % (A, B, B, A),
     # EVERY negative timeout means "no timeout", not only -1
     "W32:%d:0:-2|N:%d:1" % (A, A),
     "W64:%d:0:-9223372036854775808|W32:%d:0:-1000000000|N:%d:2" % (C, C, C),
 ]
 SCRIPTS_THOROUGH = SCRIPTS_QUICK + [
+    "W32:%d:0:-1|W32:%d:0:-1|W32:%d:0:-1|N:%d:1;N:%d:1;N:%d:1" % (A, B, A + 8192, B, A, A + 8192),
+    "W32:%d:0:-1|W32:%d:0:-1|W32:%d:0:-1|N:%d:1;N:%d:1;N:%d:1" % (A, B, A + 8192, A, A + 8192, B),
     "W32:%d:0:-1|W32:%d:0:-1|W32:%d:0:5|N:%d:2|N:%d:1" % (A, A, B, A, B),
     "W32:%d:0:5|W32:%d:0:5|W32:%d:0:5|N:%d:2" % (A, A, A, A),
     "W32:%d:0:-1|W32:%d:0:-1|N:%d:1|N:%d:1|S:%d:1" % (A, B, A, B, A),
